@@ -2,7 +2,7 @@
    normalised timeouts and clock readings, descriptors that are C ints, a clock that does not go
    backwards) hold, the model returns a trace, and the behaviours the property talks about occur. *)
 From Coq Require Import NArith ZArith List Bool Arith.
-From LCP Require Import Base.CheckedMem Events.EventsTrace Events.EventsSpec Events.EventsModel Events.EventsInv Events.EventsExamples Events.EventsRun5.
+From LCP Require Import Base.CheckedMem Events.EventsTrace Events.EventsSpec Events.EventsModel Events.EventsInv Events.EventsExamples Events.EventsRun5 Events.EventsRun5Frame Events.EventsC05.
 Import ListNotations.
 
 Ltac norm5 :=
@@ -90,3 +90,28 @@ Proof.
     vm_compute. reflexivity.
   - vm_compute. repeat split; reflexivity.
 Qed.
+
+(* the frame clause: after the second run (stopped by the result 7 of callback 5) the immediate
+   event registered with priority 9 (id 6) has not run and is live *)
+Definition ex5_xops_stopped : list xop := firstn 8 ex5_xops.
+
+Example ex5_ends_in :
+  exists s, ends_in ex5_prog ex5_xops_stopped ex5_polls ex5_clocks 100 s /\
+            live_in (rev (s_tr s)) 6 /\ kind_of (rev (s_tr s)) 6 = Some (KImm 9) /\
+            run_results (rev (s_tr s)) = [0; 7]%Z.
+Proof.
+  eexists. split; [|].
+  - destruct ex5_hyps as [A [B [C D]]]. split; [exact A|]. split.
+    + unfold ex5_xops_stopped, ex5_xops. simpl firstn. norm5.
+    + split; [exact C|]. split; [exact D|]. vm_compute. reflexivity.
+  - split; [|split; vm_compute; reflexivity].
+    unfold live_in. vm_compute. split; [tauto|]. split; intuition discriminate.
+Qed.
+
+(* the conversion of events_network_select at the edges of its three regimes *)
+Example ex_select_timeouts :
+  tv_norm (0, 1)%N = true /\ sel_timeout (Some (0, 1)%N) = 1%Z /\
+  tv_norm (2147482, 999001)%N = true /\ sel_timeout (Some (2147482, 999001)%N) = 2147483000%Z /\
+  tv_norm (2147483, 647001)%N = true /\ sel_timeout (Some (2147483, 647001)%N) = 2147483000%Z /\
+  timeout_ok (us (2147483, 647001)%N) 2147483000 = true /\ timeout_ok (us (2147483, 647001)%N) (-2147483648) = false.
+Proof. vm_compute. repeat split; reflexivity. Qed.
